@@ -1511,6 +1511,190 @@ def stream_pol_histories(run, n):
                 run.k_case('polh-' + kind, model_line(kind, cur, R, e, extra, s, base), impl, floor, desc, key=(p0, cur, len(hist), e['bclass'], f2b(R)))
 
 
+# -- caller-data aliasing / argument mutation -------------------------------------------------------------------------------
+MULT_REPRS = ['list', 'tuple', 'c-array', 'c-array-view', 'f-array', 'transposed', 'strided-view', 'int-array', 'float32-array', 'list-of-arrays']
+
+
+def make_multiplet_arg(rep, table):
+    """(argument handed to the constructor, in-place mutator or None, snapshot function) for one legal representation"""
+    ws = [w for w, r in table]
+    rs = [r for w, r in table]
+    n = len(table)
+    if rep == 'list':
+        arg = [list(ws), list(rs)]
+
+        def mutate():
+            for j in range(n):
+                arg[1][j] = 3.0 + j
+                arg[0][j] += 1.5
+        return arg, mutate, lambda: [list(arg[0]), list(arg[1])]
+    if rep == 'tuple':
+        arg = (tuple(ws), tuple(rs))
+        return arg, None, lambda: (tuple(arg[0]), tuple(arg[1]))
+    if rep == 'list-of-arrays':
+        arg = [np.array(ws), np.array(rs)]
+
+        def mutate():
+            arg[1][:] = 7.0
+            arg[0][:] += 1.5
+        return arg, mutate, lambda: [arg[0].copy(), arg[1].copy()]
+    if rep == 'c-array':
+        arr = np.array([ws, rs], dtype=np.float64)
+        base = arr
+    elif rep == 'c-array-view':          # C-contiguous view into a larger work array
+        base = np.full((4, n), -3.0)
+        base[1] = ws
+        base[2] = rs
+        arr = base[1:3]
+    elif rep == 'f-array':
+        arr = np.asfortranarray(np.array([ws, rs], dtype=np.float64))
+        base = arr
+    elif rep == 'transposed':            # an (N x 2) table handed over as .T
+        base = np.array(list(zip(ws, rs)), dtype=np.float64)
+        arr = base.T
+    elif rep == 'strided-view':
+        base = np.full((4, 2 * n + 1), -3.0)
+        base[1, 1::2] = ws
+        base[3, 1::2] = rs
+        arr = base[1::2, 1::2]
+    elif rep == 'int-array':
+        arr = np.array([[int(round(w)) for w in ws], [1] + [0] * (n - 1)], dtype=np.int64)
+        base = arr
+    elif rep == 'float32-array':
+        arr = np.array([[float(np.float32(w)) for w in ws], rs], dtype=np.float32)
+        base = arr
+    else:
+        raise ValueError(rep)
+
+    def mutate():
+        arr[1, :] = arr[1, :] * 3 + 2
+        arr[0, :] = arr[0, :] + 2
+        if base is not arr:
+            base[...] = base * 2 + 1
+    return arr, mutate, lambda: arr.copy()
+
+
+def _same_obj(a, b):
+    if isinstance(a, np.ndarray):
+        return isinstance(b, np.ndarray) and a.dtype == b.dtype and a.shape == b.shape and np.array_equal(a, b)
+    if isinstance(a, (list, tuple)):
+        return type(a) is type(b) and len(a) == len(b) and all(_same_obj(x, y) for x, y in zip(a, b))
+    return a == b
+
+
+def stream_aliasing(run, n):
+    """array-like constructor arguments: the model must own its data.  After construction the caller's object is mutated in
+    place; add_line must return bit-identical spectra before / after the mutation and equal to a model built from a private
+    copy; the constructor and add_line must not modify the caller's arrays, direction or point."""
+    from cherab.core import Line, Species
+    from cherab.core.atomic import ZeemanStructure
+    from cherab.core.model import lineshape as L
+    rng, ctx, W = run.rng, run.ctx, run.W
+    cutG = run.src['cutG']
+    for it in range(n):
+        e = gen_env(rng, tclass=rng.choice(['cold', 'warm', 'warm', 'hot']), bclass=rng.choice(['oblique', 'perp', 'parallel', 'large']))
+        kind = 'mult' if it % 3 != 2 else 'zm'
+        extra = gen_tables(rng, e, kind)
+        sg = model_sigma(kind, e, extra)
+        centre = o_doppler(e['wl'], e['dir'], e['vel'])
+        mn, mx, bins, cls = gen_window(rng, centre, sg, cutG, rng.choice(['inside', 'straddle-lo', 'random', 'inside']))
+        if mn <= 1.0 or 2 * cutG * sg / ((mx - mn) / bins) >= 2 ** 29:
+            continue
+        R = rng.uniform(0.2, 4)
+        W.set_env(e)
+        el = W.element(e['aw'])
+        line = Line(el, 0, (3, 2))
+        sp = Species(el, 0, W.ion)
+        dvec = run.V(*e['dir'])
+        pt = run.P
+
+        def shoot(m):
+            s = spectrum(mn, mx, bins)
+            m.add_line(R, pt, dvec, s)
+            W.calls = []
+            return [float(t) for t in s.samples], s
+
+        if kind == 'mult':
+            rep = MULT_REPRS[(it // 3 * 2 + it % 3) % len(MULT_REPRS)]
+            table = list(extra['mult'])
+            if rep == 'int-array':
+                table = [(float(int(round(w))), 1.0 if j == 0 else 0.0) for j, (w, r) in enumerate(table)]
+            if rep == 'float32-array':
+                k = len(table)
+                rs = [0.5, 0.25, 0.125, 0.0625, 0.03125, 0.03125][:k]
+                rs[-1] += 1.0 - sum(rs)
+                table = [(float(np.float32(w)), r) for (w, _), r in zip(table, rs)]
+            arg, mutate, snap = make_multiplet_arg(rep, table)
+            before = snap()
+            desc = dict(model='MultipletLineShape', representation=rep, radiance=R, env={k: e[k] for k in ('wl', 'aw', 'ts', 'vel', 'dir', 'b', 'ne', 'te')},
+                        extra=dict(mult=table), min=mn, max=mx, bins=bins, window=cls,
+                        scenario='construct from the caller\'s %s, evaluate, mutate the caller\'s object in place, evaluate again' % rep)
+            try:
+                m = L.MultipletLineShape(line, e['wl'], sp, W.plasma, W.ad, arg)
+            except ValueError:
+                ctx.count('ctor-rejected:alias-' + rep)
+                continue
+            private = L.MultipletLineShape(line, e['wl'], sp, W.plasma, W.ad, [[w for w, r in table], [r for w, r in table]])
+            run.s_check(_same_obj(before, snap()), 'C02:MultipletLineShape:constructor-modified-caller-data(%s)' % rep,
+                        'MultipletLineShape.__init__ changed the caller\'s multiplet %s: %r -> %r' % (rep, before, snap()), desc, 'alias-ctor', (rep,))
+            out0, s0 = shoot(m)
+            run.s_check(_same_obj(before, snap()), 'C02:MultipletLineShape:add_line-modified-caller-data(%s)' % rep,
+                        'add_line changed the caller\'s multiplet %s' % rep, desc, 'alias-call', (rep,))
+            if mutate is not None:
+                mutate()
+            out1, s1 = shoot(m)
+            outp, _ = shoot(private)
+            ex = {}
+            if out1 != out0:
+                ex = dict(integral_before=sum(out0) * s0.delta_wavelength, integral_after=sum(out1) * s1.delta_wavelength)
+            run.s_check(out1 == out0, 'C02:MultipletLineShape:aliases-caller-data(%s)' % rep,
+                        'MultipletLineShape built from a %s: after the caller edited that object in place add_line gives Sigma*delta = %r instead of %r '
+                        '(radiance %r): the model shares the caller\'s buffer' % (rep, ex.get('integral_after'), ex.get('integral_before'), R),
+                        dict(desc, **ex), 'alias-mutate', (rep, len(table)))
+            run.s_check(out0 == outp, 'C02:MultipletLineShape:representation-changes-result(%s)' % rep,
+                        'model built from a %s differs from the model built from a private list copy' % rep, desc, 'alias-private', (rep,))
+            run.k_case('alias-mult', model_line('mult', 'no', R, e, dict(mult=table), s1, [0.0] * bins), out1, K_FLOOR * R / s1.delta_wavelength + 1e-300,
+                       desc, key=(rep, len(table), f2b(R)))
+        else:
+            f = extra['fns']
+            lists = {k: list(f[k]) for k in ('pi', 'sp', 'sm')}
+            rep = rng.choice(['lists', 'tuples'])
+            args = [lists[k] if rep == 'lists' else tuple(lists[k]) for k in ('pi', 'sp', 'sm')]
+            snap0 = [list(a) for a in args]
+            zs = ZeemanStructure(*args)
+            m = L.ZeemanMultiplet(line, e['wl'], sp, W.plasma, W.ad, zs, 'no')
+            private = L.ZeemanMultiplet(line, e['wl'], sp, W.plasma, W.ad, ZeemanStructure(list(f['pi']), list(f['sp']), list(f['sm'])), 'no')
+            desc = dict(model='ZeemanMultiplet', representation='ZeemanStructure from ' + rep, radiance=R,
+                        env={k: e[k] for k in ('wl', 'aw', 'ts', 'vel', 'dir', 'b', 'ne', 'te')}, extra=dict(tabs=extra['tabs']), min=mn, max=mx, bins=bins,
+                        window=cls, scenario='construct, evaluate, edit the caller\'s component lists and the arrays returned by ZeemanStructure.__call__, evaluate again')
+            run.s_check(all(len(a) == len(b) and all(x is y for x, y in zip(a, b)) for a, b in zip(args, snap0)),
+                        'C02:ZeemanStructure:constructor-modified-caller-data', 'ZeemanStructure.__init__ changed the caller\'s component lists', desc, 'alias-ctor', ('zs',))
+            out0, s0 = shoot(m)
+            bm = math.sqrt(sum(t * t for t in e['b']))
+            got = zs(bm, 'pi')
+            ref = got.copy()
+            got[...] = 99.0                               # the caller scribbles over the returned table
+            if rep == 'lists':
+                lists['pi'].append((lambda b: e['wl'] + 0.3, lambda b: 50.0))
+                lists['sp'].clear()
+                lists['sm'][0] = (lambda b: e['wl'] - 0.4, lambda b: 9.0)
+            again = zs(bm, 'pi')
+            run.s_check(np.array_equal(again, ref), 'C02:ZeemanStructure:aliases-caller-data',
+                        'ZeemanStructure(b, "pi") changed from %r to %r after the caller edited its own lists / the previously returned array'
+                        % (ref.tolist(), again.tolist()), desc, 'alias-zs-call', (rep,))
+            out1, s1 = shoot(m)
+            outp, _ = shoot(private)
+            run.s_check(out1 == out0 and out0 == outp, 'C02:ZeemanMultiplet:aliases-caller-data',
+                        'ZeemanMultiplet: Sigma*delta before %r, after the caller edited its lists %r, private copy %r'
+                        % (sum(out0) * s0.delta_wavelength, sum(out1) * s1.delta_wavelength, sum(outp) * s0.delta_wavelength), desc, 'alias-mutate', ('zm', rep))
+            run.k_case('alias-zm', model_line('zm', 'no', R, e, extra, s1, [0.0] * bins), out1, K_FLOOR * R / s1.delta_wavelength + 1e-300, desc,
+                       key=(rep, f2b(R)))
+        # add_line must not touch the caller's direction / point objects
+        run.s_check((dvec.x, dvec.y, dvec.z) == tuple(e['dir']) and (pt.x, pt.y, pt.z) == tuple(W.point),
+                    'C02:%s:add_line-modified-direction-or-point' % type(m).__name__, 'direction %r -> %r, point %r -> %r'
+                    % (e['dir'], (dvec.x, dvec.y, dvec.z), W.point, (pt.x, pt.y, pt.z)), desc, 'alias-args', (kind,))
+
+
 # -- beam emission multiplet ----------------------------------------------------------------------------------------------
 def stream_mse(run, n):
     from cherab.core import Line
@@ -1723,6 +1907,7 @@ def run(ctx):
     stream_models(run_, ctx.n(900, 15000))
     stream_ratios(run_, ctx.n(40, 600))
     stream_zeeman_structure(run_, ctx.n(60, 1000))
+    stream_aliasing(run_, ctx.n(90, 1500))
     stream_mse(run_, ctx.n(200, 4000))
 
     outs = ctx.driver(run_.lines)
@@ -1770,9 +1955,39 @@ def replay_case(run_, case, from_corpus=None):
     hist = d.get('history') or d.get('integrator_history')
     if hist and hist[0][0] == 'new':
         return replay_gq_history(run_, d, hist)
+    if d.get('model') == 'MultipletLineShape' and d.get('representation') in MULT_REPRS:
+        return replay_alias(run_, d)
     if d.get('model') in MODEL_KINDS:
         return replay_model(run_, d)
     return None
+
+
+def replay_alias(run_, d):
+    """re-run the aliasing scenario: construct from the caller's object, evaluate, mutate the object in place, evaluate again"""
+    from cherab.core import Line, Species
+    from cherab.core.model import lineshape as L
+    e = dict(d['env'])
+    for k in ('vel', 'dir', 'b'):
+        e[k] = list(e[k])
+    table = [tuple(t) for t in d['extra']['mult']]
+    rep = d['representation']
+    W = run_.W
+    W.set_env(e)
+    el = W.element(e['aw'])
+    arg, mutate, snap = make_multiplet_arg(rep, table)
+    m = L.MultipletLineShape(Line(el, 0, (3, 2)), e['wl'], Species(el, 0, W.ion), W.plasma, W.ad, arg)
+    outs = []
+    for k in range(2):
+        s = spectrum(d['min'], d['max'], d['bins'])
+        m.add_line(d['radiance'], run_.P, run_.V(*e['dir']), s)
+        outs.append([float(t) for t in s.samples])
+        if k == 0 and mutate is not None:
+            mutate()
+    dl = s.delta_wavelength
+    run_.s_check(outs[0] == outs[1], 'C02:MultipletLineShape:aliases-caller-data(%s)' % rep,
+                 'replay: MultipletLineShape built from a %s: Sigma*delta = %r before and %r after the caller edited its object in place'
+                 % (rep, sum(outs[0]) * dl, sum(outs[1]) * dl), d, 'replay-alias', (rep,))
+    return outs[0] == outs[1], sum(outs[1]) * dl, sum(outs[0]) * dl
 
 
 def replay_gq_history(run_, d, hist):
